@@ -197,6 +197,12 @@ func TestVerifBounded_C16_Errors(t *testing.T) {
 		b, _ := json.Marshal(map[string]interface{}{"id": "s", "type": "subscribe", "message": map[string]interface{}{"query": c16Query, "variables": nil}})
 		sock.in <- b
 		var msgs []map[string]interface{}
+		// the answer may take a while on a loaded machine: wait for the first message, then for a quiet period
+		select {
+		case m := <-sock.out:
+			msgs = append(msgs, m)
+		case <-time.After(5 * time.Second):
+		}
 		deadline := time.After(300 * time.Millisecond)
 	collect:
 		for {
@@ -210,6 +216,11 @@ func TestVerifBounded_C16_Errors(t *testing.T) {
 		// the id must be free again: subscribing anew must not be refused as a duplicate
 		sock.in <- b
 		var second []map[string]interface{}
+		select {
+		case m := <-sock.out:
+			second = append(second, m)
+		case <-time.After(5 * time.Second):
+		}
 		deadline = time.After(300 * time.Millisecond)
 	collect2:
 		for {
